@@ -415,7 +415,7 @@ pub fn observe(m: &mut Mdl, c: &Call, r: &mut Rules, w: usize) {
                 m.st = St::Disc;
                 // a Session Expiry Interval in DISCONNECT replaces the one in force (3.14.2.2.2)
                 if let Some(v) = props.as_ref().and_then(|p| prop_u32(p, 0x11)) {
-                    m.persistent = v != 0;
+                    m.persistent = v != 0 && m.persistent;
                     r.label("session.expiry-in-disconnect");
                 }
             }
@@ -1080,7 +1080,7 @@ fn on_recv(m: &mut Mdl, pre: &Mdl, ap: &AP, frame: &[u8], c: &Call, r: &mut Rule
                 m.peer_disc = true;
                 if let AP::Disconnect { props: Some(p), .. } = ap {
                     if let Some(v) = prop_u32(p, 0x11) {
-                        m.persistent = v != 0;
+                        m.persistent = v != 0 && m.persistent;
                         r.label("session.expiry-in-disconnect");
                     }
                 }
